@@ -100,6 +100,8 @@ pub struct Cfg
     pub despawn_trig_boost: u64,
     /// reactors added with `App::add_reactor`
     pub app_reactors: (u64, u64),
+    /// percent chance that a driver step is preceded by a repeated `app.setup_auto_despawn()`
+    pub pct_app_setup: u64,
 }
 
 fn wset(pairs: &[(K, u32)]) -> [u32; NK] { let mut w = [0u32; NK]; for (k, v) in pairs { w[*k as usize] = *v; } w }
@@ -146,6 +148,7 @@ pub fn base_cfg() -> Cfg
         setup_wr: (0, 0),
         despawn_trig_boost: 0,
         app_reactors: (0, 1),
+        pct_app_setup: 2,
     }
 }
 
@@ -228,6 +231,7 @@ pub fn profile(name: &str) -> Cfg
             bump(&mut c, &[(K::Revoke, 12), (K::Register, 8), (K::On, 8), (K::Once, 4), (K::Despawn, 8), (K::Kill, 2), (K::Broadcast, 8), (K::EntityEvent, 8)]);
             c.modes = [20, 40, 40];
             c.d_driver[D::Gc as usize] = 14;
+            c.pct_app_setup = 6;
             c.d_driver[D::Despawn as usize] = 8;
             c.d_driver[D::Spawn as usize] = 6;
             c.pct_direct_step = 55;
@@ -250,6 +254,7 @@ pub fn profile(name: &str) -> Cfg
         {
             c.name = "C10";
             c.signals = true;
+            c.pct_app_setup = 8;
             c.hierarchy_pct = 70;
             c.d_driver = dset(&[(D::Sig, 40), (D::Gc, 14), (D::Despawn, 5), (D::DespawnRec, 3), (D::Reparent, 8), (D::Spawn, 4), (D::Run, 3), (D::Broadcast, 3), (D::Poll, 3)]);
             c.pct_direct_step = 85;
@@ -263,7 +268,7 @@ pub fn profile(name: &str) -> Cfg
             bump(&mut c, &[(K::Kill, 9), (K::Despawn, 7), (K::Revoke, 7), (K::ReturnErr, 4), (K::Direct, 8), (K::Now, 8)]);
             c.steps = (2, 8);
             c.pct_self_target = 45;
-            if name == "C11" { c.signals = true; c.d_driver[D::Sig as usize] = 10; c.d_driver[D::Gc as usize] = 8; c.hierarchy_pct = 25; c.modes = [25, 45, 30]; }
+            if name == "C11" { c.pct_app_setup = 5; c.signals = true; c.d_driver[D::Sig as usize] = 10; c.d_driver[D::Gc as usize] = 8; c.hierarchy_pct = 25; c.modes = [25, 45, 30]; }
         }
         "C14" =>
         {
@@ -661,6 +666,7 @@ pub fn generate(seed: u64, base: &Cfg) -> Program
     {
         let roll = g.r.below(100);
         if roll < g.c.pct_update_step { steps.push(Step::Update); continue; }
+        if g.r.chance(g.c.pct_app_setup) { steps.push(Step::AppSetup); }
         if roll < g.c.pct_update_step + g.c.pct_direct_step
         {
             let w = g.c.d_driver;
